@@ -9,48 +9,48 @@ namespace Gca.Srv
 /-! ### Helper lemmas: which operations touch `gcaKey` / `gcaAvail` -/
 
 /-- `s'` has the same GCA key and registration flag as `s`. -/
-def SameGca (s s' : State) : Prop := s'.gcaKey = s.gcaKey ∧ s'.gcaAvail = s.gcaAvail
+def c07h_SameGca (s s' : State) : Prop := s'.gcaKey = s.gcaKey ∧ s'.gcaAvail = s.gcaAvail
 
-theorem SameGca.refl (s : State) : SameGca s s := ⟨rfl, rfl⟩
+theorem c07h_SameGca.refl (s : State) : c07h_SameGca s s := ⟨rfl, rfl⟩
 
-theorem SameGca.trans {a b c : State} (h1 : SameGca a b) (h2 : SameGca b c) : SameGca a c :=
+theorem c07h_SameGca.trans {a b c : State} (h1 : c07h_SameGca a b) (h2 : c07h_SameGca b c) : c07h_SameGca a c :=
   ⟨h2.1.trans h1.1, h2.2.trans h1.2⟩
 
-theorem same_integrate (cfg : Cfg) (s s' : State) (r : Report) (b : Bool)
-    (h : integrate cfg s r = some (s', b)) : SameGca s s' := by
+theorem c07h_same_integrate (cfg : Cfg) (s s' : State) (r : Report) (b : Bool)
+    (h : integrate cfg s r = some (s', b)) : c07h_SameGca s s' := by
   unfold integrate at h
   split at h
   · simp at h
   · split at h
     · simp at h
-    · simp at h; obtain ⟨rfl, _⟩ := h; exact SameGca.refl _
+    · simp at h; obtain ⟨rfl, _⟩ := h; exact c07h_SameGca.refl _
     · simp at h; obtain ⟨rfl, _⟩ := h; exact ⟨rfl, rfl⟩
 
-theorem same_banDevice (s : State) (id : Nat) (cur : Auth) : SameGca s (banDevice s id cur) :=
+theorem c07h_same_banDevice (s : State) (id : Nat) (cur : Auth) : c07h_SameGca s (banDevice s id cur) :=
   ⟨rfl, rfl⟩
 
-theorem same_replayAuth (cfg : Cfg) (s : State) (a : Auth) : SameGca s (replayAuth cfg s a) := by
+theorem c07h_same_replayAuth (cfg : Cfg) (s : State) (a : Auth) : c07h_SameGca s (replayAuth cfg s a) := by
   unfold replayAuth
   split
-  · exact SameGca.refl _
+  · exact c07h_SameGca.refl _
   · split
     · split
-      · exact SameGca.refl _
+      · exact c07h_SameGca.refl _
       · exact ⟨rfl, rfl⟩
     · split
-      · exact SameGca.refl _
+      · exact c07h_SameGca.refl _
       · exact ⟨rfl, rfl⟩
 
-theorem same_foldl_replayAuth (cfg : Cfg) (l : List Auth) (s : State) :
-    SameGca s (l.foldl (replayAuth cfg) s) := by
+theorem c07h_same_foldl_replayAuth (cfg : Cfg) (l : List Auth) (s : State) :
+    c07h_SameGca s (l.foldl (replayAuth cfg) s) := by
   induction l generalizing s with
-  | nil => exact SameGca.refl _
-  | cons a l ih => exact (same_replayAuth cfg s a).trans (ih _)
+  | nil => exact c07h_SameGca.refl _
+  | cons a l ih => exact (c07h_same_replayAuth cfg s a).trans (ih _)
 
-theorem same_replayReports (cfg : Cfg) (V : Verify) (rs : List Report) (s s' : State)
-    (h : replayReports cfg V s rs = some s') : SameGca s s' := by
+theorem c07h_same_replayReports (cfg : Cfg) (V : Verify) (rs : List Report) (s s' : State)
+    (h : replayReports cfg V s rs = some s') : c07h_SameGca s s' := by
   induction rs generalizing s with
-  | nil => simp [replayReports] at h; subst h; exact SameGca.refl _
+  | nil => simp [replayReports] at h; subst h; exact c07h_SameGca.refl _
   | cons r rs ih =>
     unfold replayReports at h
     split at h
@@ -62,23 +62,23 @@ theorem same_replayReports (cfg : Cfg) (V : Verify) (rs : List Report) (s s' : S
         · split at h
           · simp at h
           · rename_i hi
-            exact (same_integrate cfg _ _ _ _ hi).trans (ih _ h)
+            exact (c07h_same_integrate cfg _ _ _ _ hi).trans (ih _ h)
 
-theorem same_rotate (sgn : Bytes → Bytes) (s : State) : SameGca s (rotate sgn s).1 := by
+theorem c07h_same_rotate (sgn : Bytes → Bytes) (s : State) : c07h_SameGca s (rotate sgn s).1 := by
   unfold rotate
   split
-  · exact SameGca.refl _
+  · exact c07h_SameGca.refl _
   · exact ⟨rfl, rfl⟩
 
-theorem same_catchUp (sgn : Bytes → Bytes) (now fuel : Nat) (s : State) :
-    SameGca s (catchUp sgn now fuel s).1 := by
+theorem c07h_same_catchUp (sgn : Bytes → Bytes) (now fuel : Nat) (s : State) :
+    c07h_SameGca s (catchUp sgn now fuel s).1 := by
   induction fuel generalizing s with
-  | zero => exact SameGca.refl _
+  | zero => exact c07h_SameGca.refl _
   | succ fuel ih =>
     unfold catchUp
     split
-    · exact SameGca.refl _
-    · have hr := same_rotate sgn s
+    · exact c07h_SameGca.refl _
+    · have hr := c07h_same_rotate sgn s
       split
       · rename_i s' heq
         rw [heq] at hr
@@ -87,82 +87,82 @@ theorem same_catchUp (sgn : Bytes → Bytes) (now fuel : Nat) (s : State) :
         rw [heq] at hr
         exact hr
 
-theorem same_tick (sgn : Bytes → Bytes) (s : State) (now : Nat) : SameGca s (tick sgn s now).1 := by
+theorem c07h_same_tick (sgn : Bytes → Bytes) (s : State) (now : Nat) : c07h_SameGca s (tick sgn s now).1 := by
   unfold tick
   split
-  · exact same_rotate sgn s
-  · exact SameGca.refl _
+  · exact c07h_same_rotate sgn s
+  · exact c07h_SameGca.refl _
 
-theorem same_dgram (cfg : Cfg) (V : Verify) (s : State) (now : Nat) (d : Bytes) :
-    SameGca s (dgram cfg V s now d).1 := by
+theorem c07h_same_dgram (cfg : Cfg) (V : Verify) (s : State) (now : Nat) (d : Bytes) :
+    c07h_SameGca s (dgram cfg V s now d).1 := by
   unfold dgram
   split
-  · exact SameGca.refl _
+  · exact c07h_SameGca.refl _
   · split
-    · exact SameGca.refl _
+    · exact c07h_SameGca.refl _
     · split
-      · exact SameGca.refl _
+      · exact c07h_SameGca.refl _
       · split
-        · exact SameGca.refl _
+        · exact c07h_SameGca.refl _
         · split
-          · exact SameGca.refl _
+          · exact c07h_SameGca.refl _
           · rename_i hi
-            exact same_integrate cfg _ _ _ _ hi
+            exact c07h_same_integrate cfg _ _ _ _ hi
 
-theorem same_saveEquipment (cfg : Cfg) (s : State) (a : Auth) : SameGca s (saveEquipment cfg s a).1 := by
+theorem c07h_same_saveEquipment (cfg : Cfg) (s : State) (a : Auth) : c07h_SameGca s (saveEquipment cfg s a).1 := by
   unfold saveEquipment
   split
-  · exact SameGca.refl _
+  · exact c07h_SameGca.refl _
   · split
     · split
-      · exact SameGca.refl _
+      · exact c07h_SameGca.refl _
       · exact ⟨rfl, rfl⟩
     · split
-      · exact SameGca.refl _
+      · exact c07h_SameGca.refl _
       · exact ⟨rfl, rfl⟩
 
-theorem same_authorize (cfg : Cfg) (V : Verify) (s : State) (a : Auth) :
-    SameGca s (authorize cfg V s a).1 := by
+theorem c07h_same_authorize (cfg : Cfg) (V : Verify) (s : State) (a : Auth) :
+    c07h_SameGca s (authorize cfg V s a).1 := by
   unfold authorize
   split
-  · exact SameGca.refl _
+  · exact c07h_SameGca.refl _
   · split
-    · exact SameGca.refl _
-    · exact same_saveEquipment cfg s a
+    · exact c07h_SameGca.refl _
+    · exact c07h_same_saveEquipment cfg s a
 
-theorem same_authServer (V : Verify) (s : State) (a : AuthServer) : SameGca s (authServer V s a).1 := by
+theorem c07h_same_authServer (V : Verify) (s : State) (a : AuthServer) : c07h_SameGca s (authServer V s a).1 := by
   unfold authServer
   split
-  · exact SameGca.refl _
+  · exact c07h_SameGca.refl _
   · split
-    · exact SameGca.refl _
+    · exact c07h_SameGca.refl _
     · split
       · split
-        · exact SameGca.refl _
+        · exact c07h_SameGca.refl _
         · split
-          · exact SameGca.refl _
+          · exact c07h_SameGca.refl _
           · exact ⟨rfl, rfl⟩
       · exact ⟨rfl, rfl⟩
 
-theorem same_migrateOrder (V : Verify) (s : State) (m : Migration) :
-    SameGca s (migrateOrder V s m).1 := by
+theorem c07h_same_migrateOrder (V : Verify) (s : State) (m : Migration) :
+    c07h_SameGca s (migrateOrder V s m).1 := by
   unfold migrateOrder
   split
-  · exact SameGca.refl _
+  · exact c07h_SameGca.refl _
   · split
-    · exact SameGca.refl _
+    · exact c07h_SameGca.refl _
     · exact ⟨rfl, rfl⟩
 
-theorem same_impactWrite (s : State) (id ts rate : Nat) : SameGca s (impactWrite s id ts rate) := by
+theorem c07h_same_impactWrite (s : State) (id ts rate : Nat) : c07h_SameGca s (impactWrite s id ts rate) := by
   unfold impactWrite
   split
-  · exact SameGca.refl _
+  · exact c07h_SameGca.refl _
   · split
     · exact ⟨rfl, rfl⟩
-    · exact SameGca.refl _
+    · exact c07h_SameGca.refl _
 
 /-- What a successful start reads from the GCA key file. -/
-theorem load_gca (cfg : Cfg) (V : Verify) (sgn : Bytes → Bytes) (d : Disk) (tempKey fresh : Key)
+theorem c07h_load_gca (cfg : Cfg) (V : Verify) (sgn : Bytes → Bytes) (d : Disk) (tempKey fresh : Key)
     (now : Nat) (s' : State) (h : load cfg V sgn d tempKey fresh now = some s') :
     ((d.gcaKey = none ∨ d.gcaKey = some []) → s'.gcaAvail = false) ∧
     (∀ k, d.gcaKey = some k → k.length = 32 → s'.gcaAvail = true ∧ s'.gcaKey = k) := by
@@ -185,10 +185,10 @@ theorem load_gca (cfg : Cfg) (V : Verify) (sgn : Bytes → Bytes) (d : Disk) (te
         · rename_i s3 h3
           split at h
           · rename_i s4 h4
-            have e1 := same_foldl_replayAuth cfg d'.auths
+            have e1 := c07h_same_foldl_replayAuth cfg d'.auths
               { gcaKey := gcaKey, gcaAvail := avail, tempKey := tempKey, srvPub := srvPub, disk := d' }
-            have e3 := same_replayReports cfg V _ _ _ h3
-            have e4 := same_catchUp sgn now (now / week + 2) s3
+            have e3 := c07h_same_replayReports cfg V _ _ _ h3
+            have e4 := c07h_same_catchUp sgn now (now / week + 2) s3
             rw [h4] at e4
             simp at h; subst h
             have hk : s4.gcaKey = gcaKey := by
@@ -213,102 +213,102 @@ theorem load_gca (cfg : Cfg) (V : Verify) (sgn : Bytes → Bytes) (d : Disk) (te
 
 
 /-- The filter predicate of `c07_once`: an accepted registration. -/
-def isAcc : Op × Out → Bool := fun p => match p with | (.register _ _, .ok) => true | _ => false
+def c07h_isAcc : Op × Out → Bool := fun p => match p with | (.register _ _, .ok) => true | _ => false
 
-theorem run_cons (cfg : Cfg) (V : Verify) (sgn : Bytes → Bytes) (s : State) (op : Op) (ops : List Op) :
+theorem c07h_run_cons (cfg : Cfg) (V : Verify) (sgn : Bytes → Bytes) (s : State) (op : Op) (ops : List Op) :
     run cfg V sgn s (op :: ops) =
       ((run cfg V sgn (step cfg V sgn s op).1 ops).1,
        (step cfg V sgn s op).2 :: (run cfg V sgn (step cfg V sgn s op).1 ops).2) := rfl
 
 /-- One step from a registered state: key and flag stay, and a registration is not accepted. -/
-theorem step_avail_true (cfg : Cfg) (V : Verify) (sgn : Bytes → Bytes) (s : State) (op : Op)
+theorem c07h_step_avail_true (cfg : Cfg) (V : Verify) (sgn : Bytes → Bytes) (s : State) (op : Op)
     (hinv : Inv s) (h : s.gcaAvail = true) :
-    SameGca s (step cfg V sgn s op).1 ∧ isAcc (op, (step cfg V sgn s op).2) = false := by
+    c07h_SameGca s (step cfg V sgn s op).1 ∧ c07h_isAcc (op, (step cfg V sgn s op).2) = false := by
   cases op with
-  | dgram now d => exact ⟨same_dgram cfg V s now d, rfl⟩
+  | dgram now d => exact ⟨c07h_same_dgram cfg V s now d, rfl⟩
   | register k sig =>
     simp only [step, register, h, if_true]
-    exact ⟨SameGca.refl _, rfl⟩
-  | authorize a => exact ⟨same_authorize cfg V s a, rfl⟩
-  | rotate => exact ⟨same_rotate sgn s, rfl⟩
-  | tick now => exact ⟨same_tick sgn s now, rfl⟩
+    exact ⟨c07h_SameGca.refl _, rfl⟩
+  | authorize a => exact ⟨c07h_same_authorize cfg V s a, rfl⟩
+  | rotate => exact ⟨c07h_same_rotate sgn s, rfl⟩
+  | tick now => exact ⟨c07h_same_tick sgn s now, rfl⟩
   | restart fresh now =>
     refine ⟨?_, rfl⟩
     simp only [step]
     split
-    · exact SameGca.refl _
+    · exact c07h_SameGca.refl _
     · rename_i s' hl
       obtain ⟨hd, hlen⟩ := hinv.gcaAv h
-      have := (load_gca cfg V sgn s.disk s.tempKey fresh now s' hl).2 _ hd hlen
+      have := (c07h_load_gca cfg V sgn s.disk s.tempKey fresh now s' hl).2 _ hd hlen
       exact ⟨this.2, this.1.trans h.symm⟩
-  | stats tso => exact ⟨SameGca.refl _, rfl⟩
-  | sync id => exact ⟨SameGca.refl _, rfl⟩
-  | authServer a => exact ⟨same_authServer V s a, rfl⟩
-  | migrate m => exact ⟨same_migrateOrder V s m, rfl⟩
-  | impact id ts rate => exact ⟨same_impactWrite s id ts rate, rfl⟩
+  | stats tso => exact ⟨c07h_SameGca.refl _, rfl⟩
+  | sync id => exact ⟨c07h_SameGca.refl _, rfl⟩
+  | authServer a => exact ⟨c07h_same_authServer V s a, rfl⟩
+  | migrate m => exact ⟨c07h_same_migrateOrder V s m, rfl⟩
+  | impact id ts rate => exact ⟨c07h_same_impactWrite s id ts rate, rfl⟩
 
 /-- One step from an unregistered state stays unregistered unless it is an accepted registration. -/
-theorem step_avail_false (cfg : Cfg) (V : Verify) (sgn : Bytes → Bytes) (s : State) (op : Op)
-    (hinv : Inv s) (h : s.gcaAvail = false) (hacc : isAcc (op, (step cfg V sgn s op).2) = false) :
+theorem c07h_step_avail_false (cfg : Cfg) (V : Verify) (sgn : Bytes → Bytes) (s : State) (op : Op)
+    (hinv : Inv s) (h : s.gcaAvail = false) (hacc : c07h_isAcc (op, (step cfg V sgn s op).2) = false) :
     (step cfg V sgn s op).1.gcaAvail = false := by
   cases op with
-  | dgram now d => exact (same_dgram cfg V s now d).2.trans h
+  | dgram now d => exact (c07h_same_dgram cfg V s now d).2.trans h
   | register k sig =>
     simp only [step, register, h] at hacc ⊢
     cases hv : V s.tempKey (Registration.signingBytes k) sig with
     | false => simpa using h
-    | true => simp [hv, isAcc] at hacc
-  | authorize a => exact (same_authorize cfg V s a).2.trans h
-  | rotate => exact (same_rotate sgn s).2.trans h
-  | tick now => exact (same_tick sgn s now).2.trans h
+    | true => simp [hv, c07h_isAcc] at hacc
+  | authorize a => exact (c07h_same_authorize cfg V s a).2.trans h
+  | rotate => exact (c07h_same_rotate sgn s).2.trans h
+  | tick now => exact (c07h_same_tick sgn s now).2.trans h
   | restart fresh now =>
     simp only [step]
     split
     · exact h
     · rename_i s' hl
-      exact (load_gca cfg V sgn s.disk s.tempKey fresh now s' hl).1 (hinv.gcaUn h).2
+      exact (c07h_load_gca cfg V sgn s.disk s.tempKey fresh now s' hl).1 (hinv.gcaUn h).2
   | stats tso => exact h
   | sync id => exact h
-  | authServer a => exact (same_authServer V s a).2.trans h
-  | migrate m => exact (same_migrateOrder V s m).2.trans h
-  | impact id ts rate => exact (same_impactWrite s id ts rate).2.trans h
+  | authServer a => exact (c07h_same_authServer V s a).2.trans h
+  | migrate m => exact (c07h_same_migrateOrder V s m).2.trans h
+  | impact id ts rate => exact (c07h_same_impactWrite s id ts rate).2.trans h
 
 /-- An accepted registration leaves the state registered. -/
-theorem step_acc (cfg : Cfg) (V : Verify) (sgn : Bytes → Bytes) (s : State) (op : Op)
-    (hacc : isAcc (op, (step cfg V sgn s op).2) = true) :
+theorem c07h_step_acc (cfg : Cfg) (V : Verify) (sgn : Bytes → Bytes) (s : State) (op : Op)
+    (hacc : c07h_isAcc (op, (step cfg V sgn s op).2) = true) :
     (step cfg V sgn s op).1.gcaAvail = true := by
   cases op with
   | register k sig =>
     simp only [step, register] at hacc ⊢
     split
-    · rename_i hv; simp [hv, isAcc] at hacc
+    · rename_i hv; simp [hv, c07h_isAcc] at hacc
     · split
-      · rename_i hv; simp [hv, isAcc] at hacc
+      · rename_i hv; simp [hv, c07h_isAcc] at hacc
       · rfl
-  | _ => simp [isAcc] at hacc
+  | _ => simp [c07h_isAcc] at hacc
 
-theorem once_aux (cfg : Cfg) (V : Verify) (sgn : Bytes → Bytes) (ops : List Op) (s : State)
+theorem c07h_once_aux (cfg : Cfg) (V : Verify) (sgn : Bytes → Bytes) (ops : List Op) (s : State)
     (hinv : Inv s) (hops : ∀ op ∈ ops, OpWF op) :
-    (s.gcaAvail = true → ((ops.zip (run cfg V sgn s ops).2).filter isAcc).length = 0) ∧
-    ((ops.zip (run cfg V sgn s ops).2).filter isAcc).length ≤ 1 := by
+    (s.gcaAvail = true → ((ops.zip (run cfg V sgn s ops).2).filter c07h_isAcc).length = 0) ∧
+    ((ops.zip (run cfg V sgn s ops).2).filter c07h_isAcc).length ≤ 1 := by
   induction ops generalizing s with
   | nil => simp [run]
   | cons op ops ih =>
     have hop : OpWF op := hops op (List.mem_cons_self ..)
     have hinv' := inv_step cfg V sgn s op hinv hop
     have ih' := ih (step cfg V sgn s op).1 hinv' (fun o ho => hops o (List.mem_cons_of_mem _ ho))
-    rw [run_cons]
+    rw [c07h_run_cons]
     simp only [List.zip_cons_cons, List.filter_cons]
     cases hav : s.gcaAvail with
     | true =>
-      have ht := step_avail_true cfg V sgn s op hinv hav
+      have ht := c07h_step_avail_true cfg V sgn s op hinv hav
       have h0 := ih'.1 (ht.1.2.trans hav)
       simp only [ht.2]
       simp [h0]
     | false =>
-      cases hacc : isAcc (op, (step cfg V sgn s op).2) with
+      cases hacc : c07h_isAcc (op, (step cfg V sgn s op).2) with
       | true =>
-        have h0 := ih'.1 (step_acc cfg V sgn s op hacc)
+        have h0 := ih'.1 (c07h_step_acc cfg V sgn s op hacc)
         simp [h0]
       | false =>
         simp only [Bool.false_eq_true, if_false, false_implies, true_and]
@@ -345,10 +345,10 @@ theorem c07_irreversible (cfg : Cfg) (V : Verify) (sgn : Bytes → Bytes) (s : S
   | cons op ops ih =>
     have hop : OpWF op := hops op (List.mem_cons_self ..)
     have hinv' := inv_step cfg V sgn s op hinv hop
-    have ht := (step_avail_true cfg V sgn s op hinv h).1
+    have ht := (c07h_step_avail_true cfg V sgn s op hinv h).1
     have ih' := ih (step cfg V sgn s op).1 hinv' (fun o ho => hops o (List.mem_cons_of_mem _ ho))
       (ht.2.trans h)
-    rw [run_cons]
+    rw [c07h_run_cons]
     exact ⟨ih'.1, ih'.2.trans ht.1⟩
 
 /-- Exactly one: in any operation sequence at most one registration is accepted. -/
@@ -356,7 +356,7 @@ theorem c07_once (cfg : Cfg) (V : Verify) (sgn : Bytes → Bytes) (s : State) (o
     (hinv : Inv s) (hops : ∀ op ∈ ops, OpWF op) :
     ((ops.zip (run cfg V sgn s ops).2).filter
       (fun p => match p with | (.register _ _, .ok) => true | _ => false)).length ≤ 1 := by
-  exact (once_aux cfg V sgn ops s hinv hops).2
+  exact (c07h_once_aux cfg V sgn ops s hinv hops).2
 
 /-- Authority: equipment authorizations, server authorizations and migration
 orders are honoured only if they verify under the key in `gcaKey`, which is the
